@@ -583,21 +583,28 @@ def addPointToTriangle (index : Nat) (point : V3 α) (pLocation : PointInTriangl
     MeshM.pure true
   else MeshM.panic "triangulation3d.rs:add_point_to_triangle:unreachable"
 
-/-- the `enumerate` loop of `add_point` (it only reads until it returns through `add_point_to_triangle`) -/
-def addPointLoop (point : V3 α) : Nat → Nat → MeshM α Bool
-  | 0, _ => MeshM.err "triangulation3d.rs:add_point:no-triangle-contains-point"
-  | fuel + 1, i => do
-    let tripiece ← tgetM i "triangulation3d.rs:add_point:index"
-    -- skip triangle if it has been deleted
-    if !tripiece.valid then addPointLoop point fuel (i + 1) else
-    let pLocation := tripiece.triangle.testPoint point
-    if pLocation != PointInTriangle.outside then addPointToTriangle i point pLocation
-    else addPointLoop point fuel (i + 1)
+/-- the `enumerate` loop of `find_point`: the first valid triangle that does not see the point outside -/
+def findPointLoop (ts : Array (TriPiece α)) (point : V3 α) : Nat → Nat → Res (Option (Nat × PointInTriangle))
+  | 0, _ => .ok none
+  | fuel + 1, i =>
+    match ts[i]? with
+    | none => .panic "triangulation3d.rs:find_point:index"
+    | some tripiece =>
+      -- skip triangle if it has been deleted
+      if !tripiece.valid then findPointLoop ts point fuel (i + 1) else
+      let pLocation := tripiece.triangle.testPoint point
+      if pLocation != PointInTriangle.outside then .ok (some (i, pLocation))
+      else findPointLoop ts point fuel (i + 1)
+
+/-- `find_point(point)` -/
+def findPoint (point : V3 α) : MeshM α (Option (Nat × PointInTriangle)) :=
+  readR (fun m => findPointLoop m.triangles point m.triangles.size 0)
 
 /-- `add_point(point)` -/
 def addPoint (point : V3 α) : MeshM α Bool := do
-  let n ← readR (fun m => .ok m.triangles.size)
-  addPointLoop point n 0
+  match (← findPoint point) with
+  | some (i, pLocation) => addPointToTriangle i point pLocation
+  | none => MeshM.err "triangulation3d.rs:add_point:no-triangle-contains-point"
 
 /-- the `for j in 1..3` loop of `refine` (longest edge): carries `(s, s_i)` -/
 def longestEdgeLoop (t : Triangle α) : Nat → Nat → Segment α → Nat → Res (Segment α × Nat)
@@ -634,23 +641,24 @@ def refinePass (maxArea maxAspectRatio : α) : Nat → Nat → Bool → MeshM α
     else if area >. maxArea then
       -- try to add the circumcenter
       let cCenter := tp.circumcenter
-      fun m =>
-        match addPoint cCenter m with
-        | (m1, .ok didSomething) =>
-          if didSomething then
-            (do restoreDelaunay maxAspectRatio
-                refinePass maxArea maxAspectRatio fuel (i + 1) true : MeshM α Bool) m1
-          else refinePass maxArea maxAspectRatio fuel (i + 1) anyChanges m1
-        | (m1, .err _) =>
-          -- the `Err` is swallowed (with whatever `add_point` had already mutated): add the centroid of slot `i`
-          (do let tp ← tgetM i "triangulation3d.rs:refine:index-centroid"
-              let centroid := tp.centroid
-              let did ← addPointToTriangle i centroid PointInTriangle.inside
-              if did then do
-                restoreDelaunay maxAspectRatio
-                refinePass maxArea maxAspectRatio fuel (i + 1) true
-              else refinePass maxArea maxAspectRatio fuel (i + 1) anyChanges : MeshM α Bool) m1
-        | (m1, .panic p) => (m1, .panic p)
+      -- Since the circumcenter may be in another triangle, we need to search for it.
+      match (← findPoint cCenter) with
+      | some (index, pLocation) => do
+        -- an error while inserting is an error
+        let did ← addPointToTriangle index cCenter pLocation
+        if did then do
+          restoreDelaunay maxAspectRatio
+          refinePass maxArea maxAspectRatio fuel (i + 1) true
+        else refinePass maxArea maxAspectRatio fuel (i + 1) anyChanges
+      | none => do
+        -- the circumcenter is out of the polygon: add the centroid of slot `i`
+        let tp ← tgetM i "triangulation3d.rs:refine:index-centroid"
+        let centroid := tp.centroid
+        let did ← addPointToTriangle i centroid PointInTriangle.inside
+        if did then do
+          restoreDelaunay maxAspectRatio
+          refinePass maxArea maxAspectRatio fuel (i + 1) true
+        else refinePass maxArea maxAspectRatio fuel (i + 1) anyChanges
     else refinePass maxArea maxAspectRatio fuel (i + 1) anyChanges
 
 /-- `refine(max_area, max_aspect_ratio)`; the Rust function recurses while a pass changed something, the model
